@@ -1,7 +1,8 @@
 (* C22 — JSON scalar values decode exactly.
    Statements only; each closed by [exact] of a lemma proved in Json/*P.v. *)
 From Coq Require Import List NArith ZArith.
-From PB Require Import Base.PBytes Json.JsonGrammar Json.JsonNumModel Json.JsonNumP Json.JsonIntP.
+From PB Require Import Base.PBytes Json.JsonGrammar Json.JsonNumModel Json.JsonNumP Json.JsonIntP
+  Json.JsonLexModel Json.JsonLexP Json.JsonScalarModel Json.JsonScalarP.
 Import ListNotations.
 Open Scope N_scope.
 
@@ -41,6 +42,65 @@ Theorem C22_int_decode_in_F6_rejected :
   forall bits signed raw, rfc_number raw -> f6_class raw = true -> decode_int bits signed raw = None.
 Proof. exact int_decode_in_F6_rejected. Qed.
 Print Assumptions C22_int_decode_in_F6_rejected.
+
+(* protojson layer (unmarshalInt / unmarshalUint): a bare number token or a quoted number
+   (string token whose content is one number, read by a nested Decoder); whatever is accepted
+   is the exact value of the literal.  [lexeme k raw] is what parseNext guarantees of a token. *)
+Theorem C22_unmarshal_int_sound :
+  forall bits tok v, 1 <= bits -> lexeme (t_kind tok) (t_raw tok) ->
+    unmarshal_int bits tok = Some v ->
+    exists raw, rfc_number raw /\ lit_is_int raw v /\ int_in_range bits true v /\
+      ((t_kind tok = KNumber /\ raw = t_raw tok) \/
+       (t_kind tok = KString /\ exists w1 w2, ws w1 /\ ws w2 /\ t_str tok = w1 ++ raw ++ w2)).
+Proof. exact unmarshal_int_sound. Qed.
+Print Assumptions C22_unmarshal_int_sound.
+
+Theorem C22_unmarshal_uint_sound :
+  forall bits tok v, lexeme (t_kind tok) (t_raw tok) ->
+    unmarshal_uint bits tok = Some v ->
+    exists raw, rfc_number raw /\ lit_is_int raw (Z.of_N v) /\ int_in_range bits false (Z.of_N v) /\
+      ((t_kind tok = KNumber /\ raw = t_raw tok) \/
+       (t_kind tok = KString /\ exists w1 w2, ws w1 /\ ws w2 /\ t_str tok = w1 ++ raw ++ w2)).
+Proof. exact unmarshal_uint_sound. Qed.
+Print Assumptions C22_unmarshal_uint_sound.
+
+(* enums: by name (first declared value of that name) or by any int32 number *)
+Theorem C22_enum_by_name :
+  forall values discard tok s v, t_kind tok = KString -> t_str tok = s ->
+    enum_by_name values s = Some v -> unmarshal_enum values discard tok = Some (Some v).
+Proof. exact enum_name_decodes. Qed.
+Print Assumptions C22_enum_by_name.
+
+Theorem C22_enum_by_name_spec :
+  forall values s v, enum_by_name values s = Some v ->
+    exists pre post, values = pre ++ (s, v) :: post /\ forall n w, In (n, w) pre -> n <> s.
+Proof. exact enum_by_name_spec. Qed.
+Print Assumptions C22_enum_by_name_spec.
+
+Theorem C22_enum_by_number :
+  forall values discard tok v, t_kind tok = KNumber -> rfc_number (t_raw tok) ->
+    unmarshal_enum values discard tok = Some (Some v) ->
+    lit_is_int (t_raw tok) v /\ int_in_range 32 true v.
+Proof. exact enum_number_exact. Qed.
+Print Assumptions C22_enum_by_number.
+
+(* floats, relative to the strconv.ParseFloat oracle (a Section variable with the hypothesis
+   that its result is correctly rounded): the literal is handed to the oracle once, at the
+   field's own width. *)
+Theorem C22_float_decode_correctly_rounded_partial :
+  forall (parse_float : N -> list byte -> option N) (correctly_rounded : N -> list byte -> N -> Prop),
+    (forall bits s b, parse_float bits s = Some b -> correctly_rounded bits s b) ->
+    forall bits tok b, t_kind tok = KNumber ->
+      unmarshal_float parse_float bits tok = Some (FNum b) -> correctly_rounded bits (t_raw tok) b.
+Proof. exact float_decode_number. Qed.
+Print Assumptions C22_float_decode_correctly_rounded_partial.
+
+Theorem C22_float_decode_is_oracle :
+  forall (parse_float : N -> list byte -> option N) bits tok, t_kind tok = KNumber ->
+    unmarshal_float parse_float bits tok =
+    match parse_float bits (t_raw tok) with Some b => Some (FNum b) | None => None end.
+Proof. exact float_decode_is_oracle. Qed.
+Print Assumptions C22_float_decode_is_oracle.
 
 (* non-vacuity: notations of 100 into int32, and both F6 witnesses are in the class *)
 Example C22_ex_1e2 :
